@@ -268,3 +268,39 @@ Lemma from_snapshots_thm now l :
 Proof.
   split; [apply from_snapshots_flags_lemma|]. split; [apply from_snapshots_ids_lemma|]. intro s. apply must_keep_iff.
 Qed.
+
+(* ------------------------------------------------------------ raising a count, command level *)
+Lemma flags_le_in : forall (res res' : list fsnap),
+  map snap_of res = map snap_of res' -> flags_le (map flag res) (map flag res') ->
+  forall s rs', In (s, false, rs') res' -> exists rs, In (s, false, rs) res.
+Proof.
+  induction res as [|e r IH]; intros res' E L s rs' Hin.
+  - destruct res'; [inversion Hin | discriminate].
+  - destruct res' as [|e' r']; [discriminate|].
+    simpl in E. injection E as E1 E2. simpl in L. inversion L as [|? ? ? ? L1 L2]; subst.
+    destruct Hin as [Hin|Hin].
+    + subst e'. destruct e as [[s0 b0] rs0]. unfold snap_of, flag in *. simpl in *. subst s0.
+      destruct b0; [specialize (L1 eq_refl); discriminate|]. exists rs0. left. reflexivity.
+    + destruct (IH r' E2 L2 s rs' Hin) as [rs H]. exists rs. right. assumption.
+Qed.
+
+Lemma forget_raising_count_thm ksort tsort : ksort_spec ksort -> tsort_spec tsort ->
+  forall c k k' now l ids ids',
+  same_but_counts k k' ->
+  forget ksort tsort c k now l = Some ids -> forget ksort tsort c k' now l = Some ids' ->
+  forall i, In i ids' -> In i ids.
+Proof.
+  intros K T c k k' now l ids ids' S F F' i Hi.
+  apply (forget_ids_exact_thm ksort tsort K T c k' now l ids' F') in Hi.
+  destruct Hi as (s & res' & rs' & H1 & H2 & H3 & H4).
+  apply (forget_ids_exact_thm ksort tsort K T c k now l ids F).
+  destruct (apply_sorted k now (arrangement ksort tsort c l (gkey c s))) as [res|] eqn:A.
+  - pose proof (raising_count_monotone_lemma k k' now _ res res' S A H3) as L.
+    pose proof (apply_sorted_snaps _ _ _ _ A) as E1. pose proof (apply_sorted_snaps _ _ _ _ H3) as E2.
+    destruct (flags_le_in res res' (eq_trans E1 (eq_sym E2)) L s rs' H4) as [rs Hin].
+    exists s, res, rs. auto.
+  - exfalso. apply apply_sorted_none in A.
+    assert (N : forget_groups ksort tsort c k now l = None).
+    { apply (forget_errors_thm ksort tsort K). split; [assumption|]. intro. subst. inversion H1. }
+    unfold forget in F. rewrite N in F. discriminate.
+Qed.
